@@ -9,6 +9,8 @@ import (
 	"fmt"
 	"io"
 	"math"
+	"os"
+	"path/filepath"
 	"sort"
 	"testing"
 	"testing/synctest"
@@ -251,8 +253,26 @@ func genCase(r *vh.Rand, maxOps int) Case {
 			op.Recv = r.Intn(len(receivers))
 		default:
 			op.Kind = "reload"
+			if r.Chance(1, 2) {
+				// restart through the REAL maintenance path: Maintenance's final run (GC + snapshot to the file) on
+				// shutdown, then a new Log from that file
+				op.Kind = "maintrestart"
+			}
 		}
 		c.Ops = append(c.Ops, op)
+	}
+	// targeted shape (1 case in 5): a restart through the real maintenance path directly BEFORE and AFTER an oversized
+	// merge (full-state sized message): what arrived only through that message must survive the second restart
+	if r.Chance(1, 5) {
+		var batch []Ent
+		for j := 0; j < r.Range(2, 4); j++ {
+			e := Ent{GKey: gkeys[j%len(gkeys)], Recv: (j / len(gkeys)) % len(receivers), TS: now + int64(j), Exp: now + int64(3*time.Hour), Firing: genHashes(r, true), Resolved: genHashes(r, false)}
+			if !hasKey(batch, e) {
+				batch = append(batch, e)
+			}
+		}
+		c.Ops = append(c.Ops, Op{Kind: "maintrestart", Dt: int64(time.Second)}, Op{Kind: "merge", Dt: int64(time.Second), Batch: batch},
+			Op{Kind: "maintrestart", Dt: int64(time.Second)}, Op{Kind: "query", Dt: int64(time.Second), GKey: gkeys[0], Recv: 0})
 	}
 	return c
 }
@@ -313,6 +333,12 @@ func runCase(t *testing.T, c *Case) (hist []string, violations []vh.Violation, t
 			return l
 		}
 		l := mk(nil)
+		snapDir := ""
+		defer func() {
+			if snapDir != "" {
+				os.RemoveAll(snapDir)
+			}
+		}()
 		// reference for the direct oracle: what the four keys held after the previous op
 		prev := map[string]*pb.Entry{}
 		expOf := map[string][]int64{} // key|timestamp -> ExpiresAt values of the entries offered or logged with that timestamp
@@ -444,6 +470,40 @@ func runCase(t *testing.T, c *Case) (hist []string, violations []vh.Violation, t
 					outTerm = "RNotFound"
 				}
 				tags["query"]++
+			case "maintrestart":
+				// explicit GC first so that its count is observable (the maintenance's own GC at the same instant then
+				// removes nothing); model: OGC then OReload
+				n, err := l.GC()
+				if err != nil {
+					t.Fatalf("GC: %v", err)
+				}
+				hist = append(hist, fmt.Sprintf("(%s, OGC, %s)", vh.Z(now), vh.App("RGC", vh.Nat(n))))
+				gcRan = true
+				if snapDir == "" {
+					d, err := os.MkdirTemp("", "c10snap")
+					if err != nil {
+						t.Fatal(err)
+					}
+					snapDir = d
+				}
+				file := filepath.Join(snapDir, "nflog")
+				stopc := make(chan struct{})
+				done := make(chan struct{})
+				go func() { defer close(done); l.Maintenance(time.Hour, file, stopc, nil) }()
+				synctest.Wait()
+				close(stopc)
+				<-done
+				f, err := os.Open(file)
+				if err != nil {
+					// no file written at all: nothing survives the restart
+					l = mk(bytes.NewReader(nil))
+				} else {
+					b, _ := io.ReadAll(f)
+					f.Close()
+					l = mk(bytes.NewReader(b))
+				}
+				opTerm, outTerm = "OReload", "RReloaded"
+				tags["restart-via-maintenance"]++
 			case "reload":
 				var buf bytes.Buffer
 				if _, err := l.Snapshot(&buf); err != nil {
